@@ -59,9 +59,14 @@ def build(ep, cls, rng):
     # ---- generic out-of-domain transformations of the matrix argument
     if cls == "nonsquare":
         F = rng.standard_normal((3, 2, 4))
+    elif cls == "nonsquare_wide":
+        F = rng.standard_normal((3, 5, 4))
     elif cls == "nonhermitian":
         F = F.copy()
         F[0, 2, 1] += 0.05 * float(np.max(np.abs(F)))
+    elif cls == "nonhermitian_diagonal":
+        F = F.copy()
+        F[1, 1, 2] += 0.3 * float(np.max(np.abs(F)))          # Hermitian off-diagonal part, non-real diagonal entry
     elif cls == "too_small":
         F = np.array([[[2.5, 0.0, 0.0, 0.0]]])
     elif cls == "wide_for_tall":
@@ -127,9 +132,10 @@ def build(ep, cls, rng):
         args = [np.ascontiguousarray(T[..., c]).copy() for c in range(4)] + [np.ascontiguousarray(b[..., c]).copy() for c in range(4)]
         # UtriangleQsparse overwrites b by documented design: only R is hashed when it returns
         return (lambda: u.UtriangleQsparse(*args)), (args if mis else args[:4])
-    if ep == "qgmres_solve":
+    if ep in ("qgmres_solve", "qgmres_solve_left_lu"):
         b = q_from_float(rng.standard_normal((m + 1 if mis else m, 1, 4)))
-        return (lambda: sv.QGMRESSolver(tol=1e-8).solve(A, b)), [A, b]
+        prec = "left_lu" if ep.endswith("left_lu") else None
+        return (lambda: sv.QGMRESSolver(tol=1e-8, preconditioner=prec).solve(A, b)), [A, b]
     if ep == "tensor_unfold":
         if cls == "not_order3":
             T3 = q_from_float(F)
